@@ -118,9 +118,124 @@ class Scalar:
         return str(v)
 
 
+def scalar_range(sc):
+    """Inclusive value range of an integer-valued scalar."""
+    if sc.kind == "uint":
+        return 0, (1 << sc.bits) - 1
+    if sc.kind == "int":
+        return -(1 << (sc.bits - 1)), (1 << (sc.bits - 1)) - 1
+    if sc.kind == "bcd":
+        return 0, 10 ** (sc.bits // 4) - 1
+    raise AssertionError(sc.kind)
+
+
+class Req:
+    """A `[requires: …]` attribute over `this` (doc/language-reference.md: the field is not Ok()
+    when the expression is false, and cannot be written with a value that makes it false).
+    text: emboss source; ok(v): does v satisfy it; fix(v): v if ok, else a value that is (a
+    deterministic function of v: the main random stream is not consulted); bad(r): a value of the
+    type that violates it."""
+
+    def __init__(self, text, ok, fix, bad):
+        self.text, self.ok, self.fix, self.bad = text, ok, fix, bad
+
+    def emb(self, subject="this"):
+        return self.text.replace("this", subject)
+
+
+def _interval_req(text, intervals, tlo, thi):
+    intervals = sorted(intervals)
+    gaps, at = [], tlo
+    for lo, hi in intervals:
+        if lo > at:
+            gaps.append((at, lo - 1))
+        at = hi + 1
+    if at <= thi:
+        gaps.append((at, thi))
+    assert gaps and intervals, (text, intervals, tlo, thi)
+
+    def ok(v):
+        return any(lo <= v <= hi for lo, hi in intervals)
+
+    def fix(v):
+        if ok(v):
+            return v
+        lo, hi = intervals[v % len(intervals)]
+        return lo + (v - lo) % (hi - lo + 1)
+
+    def bad(r):
+        lo, hi = r.choice(gaps)
+        return r.choice([lo, hi, r.randint(lo, hi)])
+    return Req(text, ok, fix, bad)
+
+
+def gen_req(r, sc):
+    """A requirement on a scalar of type sc that some values of the type satisfy and some do
+    not; None when the type is not covered (floats)."""
+    if sc.kind == "flag":
+        want = r.random() < 0.5
+        return Req("this" if want else "this == false", (lambda v: bool(v) == want), (lambda v: want),
+                   (lambda r_: not want))
+    if sc.kind == "enum":
+        e = sc.enum
+        allowed = sorted(set(x for _, x in r.sample(e.items, min(len(e.items), r.randint(1, 2)))))
+        names = [n for n, x in e.items if x in allowed]
+        text = " || ".join("this == %s.%s" % (e.name, n) for n in names)
+        lo, hi = (-(1 << (sc.bits - 1)), (1 << (sc.bits - 1)) - 1) if e.signed else (0, (1 << sc.bits) - 1)
+        others = [x for _, x in e.items if x not in allowed]
+
+        def bad(r_):
+            if others and r_.random() < 0.5:
+                return r_.choice(others)
+            while True:
+                v = r_.choice([lo, hi, r_.randint(lo, hi), r_.randint(max(lo, -3), min(hi, 12))])
+                if v not in allowed:
+                    return v
+        return Req(text, (lambda v: v in allowed), (lambda v: v if v in allowed else allowed[v % len(allowed)]), bad)
+    if sc.kind not in ("uint", "int", "bcd"):
+        return None
+    tlo, thi = scalar_range(sc)
+    if thi - tlo < 1:
+        return None
+    # constants stay inside the signed 64-bit range (and non-negative for unsigned types) so that
+    # every comparison has a common 64-bit type
+    clo, chi = max(tlo, -(1 << 62)), min(thi, (1 << 62))
+
+    def const():
+        return r.choice([r.randint(clo, chi), r.randint(max(clo, -20), min(chi, 200)), clo, chi])
+    style = r.choice(["range", "range", "lt", "ge", "ne", "disjoint"])
+    for _ in range(20):
+        if style == "range":
+            a, b = sorted((const(), const()))
+            iv, text = [(a, b)], "%d <= this <= %d" % (a, b)
+        elif style == "lt":
+            k = const()
+            iv, text = [(tlo, k - 1)], "this < %d" % k
+        elif style == "ge":
+            k = const()
+            iv, text = [(k, thi)], "this >= %d" % k
+        elif style == "ne":
+            k = const()
+            iv, text = [(tlo, k - 1), (k + 1, thi)], "this != %d" % k
+        else:
+            a, b, c, d = sorted(const() for _ in range(4))
+            iv, text = [(a, b), (c, d)], "%d <= this <= %d || %d <= this <= %d" % (a, b, c, d)
+        iv = [(lo, hi) for lo, hi in iv if lo <= hi]
+        merged = []
+        for lo, hi in sorted(iv):
+            if merged and lo <= merged[-1][1] + 1:
+                merged[-1] = (merged[-1][0], max(hi, merged[-1][1]))
+            else:
+                merged.append((lo, hi))
+        if merged and merged != [(tlo, thi)]:
+            return _interval_req(text, merged, tlo, thi)
+    return None
+
+
 class Field:
     def __init__(self, name, ftype, offset, size, cond=None, attr=None, byte_order=None, dyn_count=None,
                  dyn_offset=None, virtual=None, anonymous_bits=None):
+        self.req = None               # None | Req: `[requires: …]` on this (scalar, physical) field
         self.name = name
         self.ftype = ftype            # ('scalar', Scalar) | ('struct', StructT) | ('array', elem_ftype, count)
         self.offset = offset          # static offset in the container's units
@@ -158,6 +273,7 @@ class StructT:
     def __init__(self, name, kind, fields, static_size, params=()):
         self.name, self.kind, self.fields, self.static_size = name, kind, fields, static_size
         self.params = list(params)     # names of runtime parameters (all UInt:8)
+        self.req = None                # None | (field name, Req): struct-level `[requires: …]` over one field
         # static_size: bytes (struct) or bits (bits) of the fixed part; dynamic tails extend it.
 
     def max_size(self):
@@ -200,6 +316,8 @@ def ftype_emb(ft, in_bits, args=None):
 
 def struct_emb(st):
     out = ["%s %s%s:" % (st.kind, st.name, "(%s)" % ", ".join("%s: UInt:8" % p for p in st.params) if st.params else "")]
+    if st.req is not None:
+        out.append("  [requires: %s]" % st.req[1].emb(st.req[0]))
     if not st.fields:
         out.append("  let emboss_c06_empty = 0")
     for f in st.fields:
@@ -223,6 +341,8 @@ def struct_emb(st):
                 out.append("%s  %d [+%d] %s %s" % (ind, g.offset, g.size, ftype_emb(g.ftype, True), g.name))
                 if g.attr:
                     out.append('%s    [text_output: "%s"]' % (ind, g.attr))
+                if g.req is not None:
+                    out.append("%s    [requires: %s]" % (ind, g.req.emb()))
             if f.byte_order:
                 pass
         else:
@@ -237,6 +357,8 @@ def struct_emb(st):
                 out.append('%s  [text_output: "%s"]' % (ind, f.attr))
             if f.byte_order and not f.virtual:
                 out.append('%s  [byte_order: "%s"]' % (ind, f.byte_order))
+            if f.req is not None:
+                out.append("%s  [requires: %s]" % (ind, f.req.emb()))
     return "\n".join(out) + "\n"
 
 
@@ -611,6 +733,8 @@ class Built:
         self.emitted_paths = set()     # paths of leaves whose text must be present
         self.tree = None
         self.flags = set()             # narrow predicates of known findings that hold for this buffer
+        self.leaves = []               # [Leaf]: where every physical scalar leaf lives (for poisoning)
+        self.poison = []               # [(path, kind, detail)] when the buffer was made not Ok by content
 
 
 def put_bits(buf, byte_off, nbytes, order, raw):
@@ -618,13 +742,19 @@ def put_bits(buf, byte_off, nbytes, order, raw):
     buf[byte_off:byte_off + nbytes] = bs
 
 
-def build_bits_value(r, bt, emitted, path, built, values_out):
-    """Returns (raw integer of the bits type, text tree, fully_emitted)."""
+def build_bits_value(r, bt, emitted, path, built, values_out, where=None, ctx=frozenset()):
+    """Returns (raw integer of the bits type, text tree, fully_emitted).  where: (byte offset,
+    bytes, byte order) of the container, for the leaf records."""
     raw, tree, full = 0, [], True
     covered = 0
     for g in bt.fields:
         sc = g.ftype[1]
         v = sc.pick(r)
+        if g.req is not None:
+            v = g.req.fix(v)
+        if where is not None:
+            built.leaves.append(Leaf(path + g.name, sc, where[0], where[1], where[2], (g.offset, g.size), g.req,
+                                     emitted and g.attr != "Skip", False, ctx | {"bits"}, v))
         values_out[g.name] = v
         raw |= sc.raw(v) << g.offset
         em = emitted and g.attr != "Skip"
@@ -640,13 +770,22 @@ def build_bits_value(r, bt, emitted, path, built, values_out):
     return raw, tree, full
 
 
-def build_value(r, ft, order, default_order, buf_off, emitted, path, built, params=None):
-    """Encodes a random value of type `ft` at byte offset buf_off.  Returns text tree node."""
+def build_value(r, ft, order, default_order, buf_off, emitted, path, built, params=None, ctx=frozenset(),
+                field=None, locked=False):
+    """Encodes a random value of type `ft` at byte offset buf_off.  Returns text tree node.
+    field: the Field when the value is a struct member (its `[requires]` is honoured)."""
     order = order or default_order
     if ft[0] == "scalar":
         sc = ft[1]
         v = sc.pick(r)
+        req = field.req if field is not None else None
+        if req is not None:
+            v = req.fix(v)
+        sreq = getattr(field, "struct_req", None) if field is not None else None
+        if sreq is not None:
+            v = sreq.fix(v)
         nbytes = sc.bits // 8
+        built.leaves.append(Leaf(path, sc, buf_off, nbytes, order, None, req, emitted, locked, ctx, v, sreq))
         put_bits(built.buf, buf_off, nbytes, order, sc.raw(v))
         built.dump.append((path, sc.dump(v)))
         if emitted:
@@ -658,13 +797,13 @@ def build_value(r, ft, order, default_order, buf_off, emitted, path, built, para
         st = ft[1]
         if st.kind == "bits":
             vals = {}
-            raw, tree, full = build_bits_value(r, st, emitted, path + ".", built, vals)
             nbytes = st.static_size // 8
+            raw, tree, full = build_bits_value(r, st, emitted, path + ".", built, vals, (buf_off, nbytes, order), ctx)
             put_bits(built.buf, buf_off, nbytes, order, raw)
             for i in range(nbytes):
                 built.mask[buf_off + i] = "E" if (emitted and full) else ("U" if emitted else built.mask[buf_off + i])
             return ("struct", tree), None
-        tree = build_struct(r, st, default_order, buf_off, emitted, path + ".", built, params=params)
+        tree = build_struct(r, st, default_order, buf_off, emitted, path + ".", built, params=params, ctx=ctx)
         return ("struct", tree), None
     if ft[0] == "array":
         _, elem, count = ft
@@ -680,17 +819,39 @@ def elem_size(elem):
     return elem_size(elem[1]) * elem[2]
 
 
-def build_array(r, elem, count, order, default_order, buf_off, emitted, path, built, params=None):
+def build_array(r, elem, count, order, default_order, buf_off, emitted, path, built, params=None, ctx=frozenset()):
     items = []
     esz = elem_size(elem)
+    ectx = ctx | {"array_of_structs" if elem[0] == "struct" and elem[1].kind == "struct" else "array"}
     for i in range(count):
         p = "%s[%d]" % (path, i)
         if elem[0] == "array":
-            node = build_array(r, elem[1], elem[2], order, default_order, buf_off + i * esz, emitted, p, built, params)
+            node = build_array(r, elem[1], elem[2], order, default_order, buf_off + i * esz, emitted, p, built, params,
+                               ectx)
         else:
-            node, _ = build_value(r, elem, order, default_order, buf_off + i * esz, emitted, p, built, params)
+            node, _ = build_value(r, elem, order, default_order, buf_off + i * esz, emitted, p, built, params, ectx)
         items.append(node)
     return ("array", items)
+
+
+class Leaf:
+    """One physical scalar leaf of a built buffer: where its bits are, what it requires, whether
+    its text must be present, whether something else is computed from it (locked: never poisoned)."""
+
+    def __init__(self, path, sc, off, nbytes, order, bit, req, emitted, locked, ctx, value, sreq=None):
+        self.path, self.sc, self.off, self.nbytes, self.order, self.bit = path, sc, off, nbytes, order, bit
+        self.req, self.emitted, self.locked, self.ctx, self.value, self.sreq = req, emitted, locked, ctx, value, sreq
+
+    def kinds(self):
+        """The ways this leaf can make the view not Ok by content."""
+        out = []
+        if self.sc.kind == "bcd":
+            out.append("bcd")
+        if self.req is not None:
+            out.append("requires")
+        if self.sreq is not None:
+            out.append("struct_requires")
+        return out
 
 
 
@@ -744,7 +905,7 @@ def mark_sources_written(st, f, base, built):
                         built.mask[o + i] = "E"
 
 
-def build_struct(r, st, default_order, base, emitted, path, built, size_out=None, params=None):
+def build_struct(r, st, default_order, base, emitted, path, built, size_out=None, params=None, ctx=frozenset()):
     """Encodes a random value of struct `st` at byte offset `base`.  Returns the ordered
     list [(field name, node)] of fields the text must contain *in source order*; the caller
     re-orders by the real `fields_in_dependency_order`."""
@@ -764,6 +925,9 @@ def build_struct(r, st, default_order, base, emitted, path, built, size_out=None
             pending.remove(f)
     tree = []
     top = st.static_size
+    depended = set()                  # names some other field of the struct is computed / located from
+    for f in st.fields:
+        depended.update(f.deps())
     for f in st.fields:
         exists = True
         if f.cond:
@@ -778,7 +942,8 @@ def build_struct(r, st, default_order, base, emitted, path, built, size_out=None
                     built.dump.append((path + g.name, "absent"))
                 continue
             vals = {}
-            raw, sub, full = build_bits_value(r, bt, emitted, path, built, vals)
+            raw, sub, full = build_bits_value(r, bt, emitted, path, built, vals,
+                                              (base + f.offset, f.size, default_order), ctx)
             values.update(vals)
             put_bits(built.buf, base + f.offset, f.size, default_order, raw)
             for i in range(f.size):
@@ -799,7 +964,7 @@ def build_struct(r, st, default_order, base, emitted, path, built, size_out=None
         if f.ftype[0] == "array":
             count = values[f.dyn_count] if f.dyn_count else f.ftype[2]
             node = build_array(r, f.ftype[1], count, f.byte_order, default_order, off, em, path + f.name, built,
-                               sub_params)
+                               sub_params, ctx)
             top = max(top, f.offset + elem_size(f.ftype[1]) * count) if f.dyn_count else top
         else:
             if getattr(f, "small", False):
@@ -812,8 +977,9 @@ def build_struct(r, st, default_order, base, emitted, path, built, size_out=None
                     built.mask[off] = "E"
                 node = ("scalar", sc, v)
             else:
+                fctx = ctx | {"nested"} if f.ftype[0] == "struct" and f.ftype[1].kind == "struct" else ctx
                 node, v = build_value(r, f.ftype, f.byte_order, default_order, off, em, path + f.name, built,
-                                      sub_params)
+                                      sub_params, fctx, field=f, locked=f.name in depended)
                 if v is not None and f.ftype[0] == "scalar" and f.ftype[1].kind == "uint":
                     values[f.name] = v
             if f.dyn_offset:
@@ -860,6 +1026,245 @@ def build_buffer(r, st, default_order):
     built.buf = built.buf[:size]
     built.mask = built.mask[:size]
     return built
+
+
+# ------------------------------------------------------------------------- not Ok by content
+def _req_candidates(st):
+    """Physical scalar fields of st (sub-fields of anonymous bits included) that may carry a
+    `[requires]`: not the small tag / length fields the layout is computed from."""
+    out = []
+    for f in st.fields:
+        if f.virtual or getattr(f, "small", False):
+            continue
+        if f.anonymous_bits is not None:
+            out.extend(g for g in f.anonymous_bits.fields if g.ftype[0] == "scalar")
+        elif f.ftype[0] == "scalar":
+            out.append(f)
+    return [f for f in out if f.ftype[1].kind in ("uint", "int", "bcd", "enum", "flag")]
+
+
+def decorate_requires(r, mod, p_field=0.25, p_struct=0.25):
+    """Adds `[requires: …]` attributes to a generated module (in place): on scalar fields of
+    structs and `bits` types, and — struct level — `[requires: <expression over one field>]`.  Uses
+    its own random stream, so the shapes of the modules are those of the undecorated generator;
+    Ok-by-construction buffers draw the values of such fields inside the requirement."""
+    for st in mod.types:
+        for f in _req_candidates(st):
+            if f.req is None and r.random() < p_field:
+                f.req = gen_req(r, f.ftype[1])
+        if st.kind != "struct" or st.req is not None or r.random() >= p_struct:
+            continue
+        depended = set()
+        for f in st.fields:
+            depended.update(f.deps())
+        cands = [f for f in st.fields if not f.virtual and f.anonymous_bits is None and f.ftype[0] == "scalar"
+                 and f.ftype[1].kind in ("uint", "int") and f.req is None and f.cond is None
+                 and not getattr(f, "small", False) and f.name not in depended]
+        if cands:
+            f = r.choice(cands)
+            req = gen_req(r, f.ftype[1])
+            if req is not None:
+                st.req = (f.name, req)
+                f.struct_req = req
+
+
+def _set_leaf_raw(buf, leaf, raw):
+    order = "little" if leaf.order == "LittleEndian" else "big"
+    if leaf.bit is None:
+        buf[leaf.off:leaf.off + leaf.nbytes] = raw.to_bytes(leaf.nbytes, order)
+        return
+    pos, width = leaf.bit
+    whole = int.from_bytes(bytes(buf[leaf.off:leaf.off + leaf.nbytes]), order)
+    whole = (whole & ~(((1 << width) - 1) << pos)) | (raw << pos)
+    buf[leaf.off:leaf.off + leaf.nbytes] = whole.to_bytes(leaf.nbytes, order)
+
+
+def _copy_node(n):
+    if n[0] == "struct":
+        return ("struct", [(k, _copy_node(x)) for k, x in n[1]]) + tuple(n[2:])
+    if n[0] == "array":
+        return ("array", [_copy_node(x) for x in n[1]])
+    return n
+
+
+def _tree_replace(tree, path, fn):
+    """Replaces the scalar node at `path` (dump path syntax: a.b[2].c) of a struct tree (list of
+    (name, node)) by fn(node).  Returns False when the path is not in the tree (not emitted)."""
+    import re
+    toks = re.findall(r"([A-Za-z_][A-Za-z_0-9]*)|\[(\d+)\]", path)
+    cur_list, cur_idx, named = None, None, False
+    node = ("struct", tree)
+    for name, idx in toks:
+        if name:
+            if node[0] != "struct":
+                return False
+            hit = [i for i, (k, _) in enumerate(node[1]) if k == name]
+            if not hit:
+                return False
+            cur_list, cur_idx, named = node[1], hit[0], True
+            node = cur_list[cur_idx][1]
+        else:
+            if node[0] != "array" or int(idx) >= len(node[1]):
+                return False
+            cur_list, cur_idx, named = node[1], int(idx), False
+            node = cur_list[cur_idx]
+    if node[0] != "scalar" or cur_list is None:
+        return False
+    cur_list[cur_idx] = (cur_list[cur_idx][0], fn(node)) if named else fn(node)
+    return True
+
+
+def poisonable_leaves(built):
+    """Leaves that can make the view not Ok by content without moving anything else: emitted,
+    nothing is computed / located / conditioned from them, and either Bcd (invalid digit) or under
+    a `[requires]` (field level or struct level)."""
+    return [lf for lf in built.leaves if lf.emitted and not lf.locked and lf.kinds()]
+
+
+def poison_buffer(r, built, prefer=None):
+    """A copy of an Ok-by-construction Built whose view is NOT Ok by content: 1–3 leaves are
+    rewritten (an invalid BCD digit; a value violating the field's `[requires]`; a value
+    violating the struct-level `[requires]`) while every other leaf keeps its intended value.
+    The copy's tree has ("unreadable", scalar) nodes where the text must leave a field / array
+    element out; a leaf poisoned only at struct level stays readable with its new value.  Returns
+    None when the struct has no such leaf.  prefer: a kind / context to pick first, if available."""
+    cands = poisonable_leaves(built)
+    if not cands:
+        return None
+    chosen = []
+    if prefer is not None:
+        pref = [lf for lf in cands if prefer in lf.kinds() or prefer in lf.ctx]
+        if pref:
+            chosen.append(r.choice(pref))
+    n = r.choice([1, 1, 2, 3])
+    pool = [lf for lf in cands if lf not in chosen]
+    r.shuffle(pool)
+    chosen += pool[:max(0, n - len(chosen))]
+    # a neighbour in the same array, so that "element after a skipped one" and runs of skipped
+    # elements both occur
+    import re
+    for lf in list(chosen):
+        m = re.match(r"^(.*)\[(\d+)\]$", lf.path)
+        if m and r.random() < 0.4:
+            near = [x for x in cands if x not in chosen and re.match(r"^%s\[\d+\]$" % re.escape(m.group(1)), x.path)]
+            if near:
+                chosen.append(r.choice(near))
+    out = Built(len(built.buf))
+    out.buf, out.mask = bytearray(built.buf), list(built.mask)
+    out.emitted_paths, out.flags = set(built.emitted_paths), set(built.flags)
+    out.leaves = built.leaves
+    out.tree = [(k, _copy_node(x)) for k, x in built.tree]
+    dump = dict(built.dump)
+    out.base = built
+    out.unreadable = set()
+    for lf in chosen:
+        kind = r.choice(lf.kinds())
+        sc = lf.sc
+        if kind == "bcd":
+            raw = sc.raw(lf.value)
+            j = r.randrange(sc.bits // 4)
+            digit = r.choice([10, 15, r.randint(10, 15)])
+            raw = (raw & ~(0xf << (4 * j))) | (digit << (4 * j))
+            _set_leaf_raw(out.buf, lf, raw)
+            detail = "digit %d of %d set to 0x%x (raw 0x%x)" % (j, sc.bits // 4, digit, raw)
+            new_value = None
+        else:
+            req = lf.req if kind == "requires" else lf.sreq
+            v = req.bad(r)
+            _set_leaf_raw(out.buf, lf, sc.raw(v))
+            detail = "value %s violates [requires: %s]" % (sc.dump(v), req.text)
+            new_value = v
+        if kind == "struct_requires":
+            # every atomic field is still readable: the field is in the text with its new value
+            ok = _tree_replace(out.tree, lf.path, lambda node, v=new_value: ("scalar", node[1], v))
+            dump[lf.path] = sc.dump(new_value)
+        else:
+            ok = _tree_replace(out.tree, lf.path, lambda node: ("unreadable", node[1]))
+            dump[lf.path] = "!ok"
+            out.unreadable.add(lf.path)
+        assert ok, ("poisoned leaf is not in the tree", lf.path)
+        out.poison.append((lf.path, kind, detail, sorted(lf.ctx)))
+    out.dump = [(k, dump[k]) for k, _ in built.dump]
+    return out
+
+
+def gen_poison_module(r, name):
+    """A module about views that are not Ok by content: Bcd fields, `Bcd:n[]` arrays, fields with
+    `[requires]`, a struct-level `[requires]`, each as a member, as an array element (arrays of
+    scalars and arrays of structs) and inside nested structs / `bits`."""
+    cap = name.capitalize()
+    enums = [gen_enum(r, "%sEnum0" % cap)]
+    while enums[0].bits > 32 or len(enums[0].items) < 2:
+        enums = [gen_enum(r, "%sEnum0" % cap)]
+    e = enums[0]
+    bt = gen_bits(r, "%sBits0" % cap, enums, r.choice([8, 16]), attrs=False)
+
+    def scal(kind, bits):
+        return ("scalar", Scalar(kind, bits, e if kind == "enum" else None))
+
+    def with_req(f):
+        f.req = gen_req(r, f.ftype[1])
+        return f
+    # element: fixed size, a Bcd member, a member with [requires], sometimes an enum / Int with [requires]
+    fields, pos = [], 0
+    for kind, bits, want_req in r.sample([("bcd", r.choice([8, 16, 24]), False), ("uint", r.choice([8, 16]), True),
+                                          (r.choice(["int", "enum", "bcd"]), None, True)], 3):
+        bits = bits or (e.bits if kind == "enum" else r.choice([8, 16, 32]))
+        f = Field("e_%s%d" % (kind[0], len(fields)), scal(kind, bits), pos, bits // 8,
+                  attr=r.choice([None] * 6 + ["Emit"]), byte_order=r.choice([None, None, "BigEndian", "LittleEndian"]))
+        fields.append(with_req(f) if want_req else f)
+        pos += bits // 8
+    elem = StructT("%sElem" % cap, "struct", fields, pos)
+    # middle: an array of Bcd, a bits member, an element member, a scalar with [requires]
+    for g in bt.fields:
+        if g.ftype[1].kind in ("uint", "int", "flag", "bcd") and r.random() < 0.6:
+            with_req(g)
+    fields, pos = [], 0
+    nd = r.choice([3, 4, 5, 9, 10, 12])
+    dsz = r.choice([1, 1, 2])
+    parts = [
+        Field("m_digits", ("array", scal("bcd", 8 * dsz), nd), 0, dsz * nd, byte_order=r.choice([None, "BigEndian"]) if dsz > 1 else None),
+        Field("m_bits", ("struct", bt), 0, bt.static_size // 8),
+        Field("m_elem", ("struct", elem), 0, elem.static_size),
+        with_req(Field("m_u", scal(r.choice(["uint", "int"]), r.choice([8, 16, 32, 64])), 0, 0)),
+    ]
+    parts[3].size = parts[3].ftype[1].bits // 8
+    r.shuffle(parts)
+    for f in parts:
+        f.offset = pos
+        pos += f.size
+        if f.ftype[0] == "array":
+            f.esz = dsz
+    mid = StructT("%sMid" % cap, "struct", parts, pos)
+    # top: arrays of elements / of middles, a nested middle, a Bcd field, a field under a struct-level [requires]
+    na, nm = r.randint(2, 4), r.randint(1, 2)
+    parts = [
+        Field("t_elems", ("array", ("struct", elem), na), 0, elem.static_size * na),
+        Field("t_mid", ("struct", mid), 0, mid.static_size),
+        Field("t_mids", ("array", ("struct", mid), nm), 0, mid.static_size * nm),
+        Field("t_bcd", scal("bcd", r.choice([8, 16, 32, 64])), 0, 0, attr=r.choice([None, None, "Emit"])),
+        Field("t_lim", scal("uint", r.choice([8, 16])), 0, 0),
+        Field("t_e", scal("enum", e.bits), 0, e.bits // 8),
+    ]
+    parts[3].size = parts[3].ftype[1].bits // 8
+    parts[4].size = parts[4].ftype[1].bits // 8
+    with_req(parts[5])
+    r.shuffle(parts)
+    pos = 0
+    for f in parts:
+        f.offset = pos
+        pos += f.size
+        if f.ftype[0] == "array":
+            f.esz = elem_size(f.ftype[1])
+    top = StructT("%sTop" % cap, "struct", parts, pos)
+    lim = [f for f in parts if f.name == "t_lim"][0]
+    req = gen_req(r, lim.ftype[1])
+    top.req, lim.struct_req = ("t_lim", req), req
+    # one struct of the general generator over these types (conditions, dynamic sizes, `let`s, …)
+    gen = gen_struct(r, "%sGen" % cap, enums, [elem, mid], [bt], allow_dynamic=True, nfields=r.randint(3, 5))
+    mod = Module(name, enums, [bt, elem, mid, top, gen], r.choice(BYTE_ORDERS))
+    decorate_requires(r, Module(name, enums, [gen], mod.default_order), p_field=0.6, p_struct=0.5)
+    return mod
 
 
 # ------------------------------------------------------------------------- predicates
